@@ -240,12 +240,47 @@ def collect(repo):
         fn = getattr(M, pre + name, None)
         if fn is None or depth > 3:
             return False
+        if fn is getattr(M, pre + target, None):          # an alias (`_end_abstract = _end_description`)
+            return True
         m = re.fullmatch(r"self\.%s([A-Za-z_]+)\((?:attrs_d)?\)" % pre, body_of(fn))
         return reaches(m.group(1), pre, target, depth + 1) if m else False
     title_handlers = []
     if hasattr(M, "_start_title") and hasattr(M, "_end_title") and body_of(M._start_title) == TITLE_START and body_of(M._end_title) == TITLE_END:
         title_handlers = [Chars(n) for n in handlers(strict, "_start_") if reaches(n, "_start_", "title") and reaches(n, "_end_", "title")]
+    # ---- stage 3: the summary / description / content handlers are modelled by hand (Model/Mixin.lean: startExt / endExt); per kind the names that
+    # reach them are listed only while the source of the handlers of that kind (and of the helpers they share) still has the modelled shape
+    FP = {
+        "_start_description": "context = self._get_context()\nif 'summary' in context and (not self.hasContent):\n    self._summaryKey = 'content'\n    self._start_content(attrs_d)\nelse:\n    self.push_content('description', attrs_d, 'text/html', self.infeed or self.inentry or self.insource)",
+        "_end_description": "if self._summaryKey == 'content':\n    self._end_content()\nelse:\n    self.pop_content('description')\nself._summaryKey = None",
+        "_start_abstract": "self.push_content('description', attrs_d, 'text/plain', self.infeed or self.inentry or self.insource)",
+        "_start_summary": "context = self._get_context()\nif 'summary' in context and (not self.hasContent):\n    self._summaryKey = 'content'\n    self._start_content(attrs_d)\nelse:\n    self._summaryKey = 'summary'\n    self.push_content(self._summaryKey, attrs_d, 'text/plain', 1)",
+        "_end_summary": "if self._summaryKey == 'content':\n    self._end_content()\nelse:\n    self.pop_content(self._summaryKey or 'summary')\nself._summaryKey = None",
+        "_start_content": "self.hasContent = 1\nself.push_content('content', attrs_d, 'text/plain', 1)\nsrc = attrs_d.get('src')\nif src:\n    self.contentparams['src'] = src\nself.push('content', 1)",
+        "_end_content": "copyToSummary = self.map_content_type(self.contentparams.get('type')) in {'text/plain'} | self.html_types\nvalue = self.pop_content('content')\nif copyToSummary:\n    self._save('summary', value)",
+        "_start_content_encoded": "self.hasContent = 1\nself.push_content('content', attrs_d, 'text/html', 1)",
+        "_end_item": "self.pop('item')\nself.inentry = 0\nself.hasContent = 0",
+        "push_content": "self.incontent += 1\nif self.lang:\n    self.lang = self.lang.replace('_', '-')\nself.contentparams = FeedParserDict({'type': self.map_content_type(attrs_d.get('type', default_content_type)), 'language': self.lang, 'base': self.baseuri})\nself.contentparams['base64'] = self._is_base64(attrs_d, self.contentparams)\nself.push(tag, expecting_text)",
+        "pop_content": "value = self.pop(tag)\nself.incontent -= 1\nself.contentparams.clear()\nreturn value",
+    }
+
+    def fp_ok(*names):
+        return all(hasattr(M, n) and body_of(getattr(M, n)) == FP[n] for n in names)
+    shared = fp_ok("push_content", "pop_content", "_start_content", "_end_content", "_end_item")
+    KINDS = {  # kind -> (start target, end target, handlers whose source must match)
+        "description": ("description", "description", ("_start_description", "_end_description")),
+        "abstract": ("abstract", "description", ("_start_abstract", "_end_description")),
+        "summary": ("summary", "summary", ("_start_summary", "_end_summary")),
+        "content": ("content", "content", ()),
+        "content_encoded": ("content_encoded", "content", ("_start_content_encoded",)),
+    }
+    hand_modelled = []
+    for n in handlers(strict, "_start_"):
+        for kind, (st, en, need) in KINDS.items():
+            if shared and fp_ok(*need) and reaches(n, "_start_", st) and reaches(n, "_end_", en):
+                hand_modelled.append((Chars(n), Chars(kind)))
+                break
     T["Mixin"] = [
+        ("handModelledL", "List (List Char × List Char)", hand_modelled),
         ("dateElementsL", "List (List Char × List Char × List Char)", date_handlers),
         ("contentElementsL", "List (List Char × List Char × List Char)", content_handlers),
         ("titleHandlersL", "List (List Char)", title_handlers),
